@@ -23,7 +23,7 @@ class R:
   """Thin wrapper over a numpy Generator with helpers returning JSON-able values."""
 
   def __init__(self, seed):
-    self.g = np.random.default_rng(int(seed))
+    self.g = np.random.default_rng(seed if isinstance(seed, (list, tuple)) else int(seed))
 
   def u(self, lo, hi):
     return r6(self.g.uniform(lo, hi))
@@ -86,6 +86,7 @@ DEFAULT_CFG = dict(
   contacts="none",  # none | pile
   condim_menu=[3],
   margin=False,
+  geom_adhesion=False,  # passive contact adhesion (geom/pair `adhesion` attribute)
   nkey=0,
   nuserdata=0,
   unnorm=False,
@@ -473,6 +474,15 @@ def make_spec(cfg) -> dict:
     spec["option"].setdefault("wind", r.vec(3, -2, 2))
     spec["option"].setdefault("density", r.u(0.5, 50))
     spec["option"].setdefault("viscosity", r.u(0.0, 0.5))
+  if cfg.get("geom_adhesion"):
+    # post-pass with its own stream, so that the rest of the spec is the same with and without adhesion
+    ra = R([int(cfg["seed"]), 0xAD])
+    for g in [g for b in bodies for g in b["geoms"]] + spec["world_geoms"]:
+      if ra.p(0.6):
+        g["adhesion"] = ra.lu(0.1, 30.0)
+    for p in spec["pairs"]:
+      if ra.p(0.6):
+        p["adhesion"] = ra.lu(0.1, 30.0)
   return spec
 
 
@@ -644,7 +654,7 @@ def _attrs(d, keys):
 
 
 _GEOM_KEYS = ["name", "type", "size", "pos", "quat", "condim", "friction", "priority", "solmix", "solref", "solimp", "margin", "gap",
-              "contype", "conaffinity", "fluidshape", "fluidcoef", "density", "group", "mesh", "hfield", "rgba", "mass"]
+              "adhesion", "contype", "conaffinity", "fluidshape", "fluidcoef", "density", "group", "mesh", "hfield", "rgba", "mass"]
 _JOINT_KEYS = ["name", "type", "axis", "pos", "armature", "damping", "stiffness", "springref", "frictionloss", "range", "margin",
                "solreflimit", "actuatorfrcrange", "actuatorgravcomp", "ref"]
 
@@ -751,7 +761,7 @@ def render(spec) -> str:
   if spec.get("pairs") or spec.get("excludes"):
     out.append("<contact>")
     for p in spec.get("pairs", []):
-      out.append(f"<pair{_attrs(p, ['geom1', 'geom2', 'condim', 'friction', 'solref', 'solreffriction', 'solimp', 'margin', 'gap'])}/>")
+      out.append(f"<pair{_attrs(p, ['geom1', 'geom2', 'condim', 'friction', 'solref', 'solreffriction', 'solimp', 'margin', 'gap', 'adhesion'])}/>")
     for e in spec.get("excludes", []):
       out.append(f"<exclude{_attrs(e, ['body1', 'body2'])}/>")
     out.append("</contact>")
